@@ -114,7 +114,11 @@ func hostileStream(es []hostileFile, o refOpts, rngH *H) []byte {
 func runHostileClient(args []string, dst string, stream []byte) string {
 	osenv := &rsyncos.Env{Stdout: io.Discard, Stderr: io.Discard, DontRestrict: true}
 	pc := rsyncopts.NewContext(rsyncopts.NewOptionsWithGokrazyDefaults(osenv))
-	if err := pc.ParseArguments(osenv, append(append([]string{}, args...), "host::mod/", dst)); err != nil {
+	cl := append(append([]string{}, args...), "host::mod/")
+	if dst != "" {
+		cl = append(cl, dst)
+	}
+	if err := pc.ParseArguments(osenv, cl); err != nil {
 		return "optserr:" + err.Error()
 	}
 	done := make(chan string, 1)
@@ -144,6 +148,24 @@ func suiteHostile(h *H) {
 	base, err := os.MkdirTemp("", "verif-hostile")
 	if err != nil {
 		panic(err)
+	}
+	// ---- a client that only lists (one source argument, no destination) has no destination at all: a
+	// server that sends file data although nothing was requested must get an error, not a crash
+	{
+		es := []hostileFile{{e: refEntry{name: []byte("."), mode: sIFDIR | 0o755, size: 4096, mtime: 1500000000}},
+			{e: refEntry{name: []byte("f"), mode: sIFREG | 0o644, size: 5, mtime: 1500000000}, data: []byte("hello")}}
+		for _, args := range [][]string{{"-r"}, {"-rt"}, {"-a"}} {
+			h.begin(fmt.Sprintf("!hostile-listonly seed=%d opts=%s", h.seed, strings.Join(args, ",")))
+			out := runHostileClient(args, "", hostileStream(es, refOpts{links: args[0] == "-a"}, h))
+			v := ""
+			if strings.HasPrefix(out, "panic") {
+				v = "FAIL[C08] a listing client panicked when the server sent file data: " + out
+			} else if out == "timeout" {
+				v = "FAIL[C18] a listing client did not terminate when the server sent file data"
+			}
+			h.emit(fmt.Sprintf("!hostile-listonly seed=%d opts=%s", h.seed, strings.Join(args, ",")), strings.SplitN(out, ":", 2)[0], v, true)
+			h.stat("hostile.listonly")
+		}
 	}
 	defer os.RemoveAll(base)
 	const secret = "CANARY-SECRET-7f3a"
